@@ -142,7 +142,7 @@ PROPS = {
                  assumptions=["OS-scheduled: not reproducible by seed; absence of race reports is not absence of races."]),
     "C15": plain([npart("janitor", "^TestC15$", {"shards": 4, "checks": 1, "timeout": 900, "env": {"VERIF_C15_CONFIGS": 16}},
                         {"shards": 4, "checks": 1, "timeout": 3 * 3600, "env": {"VERIF_C15_CONFIGS": 800}})],
-                 "Cases are generated configurations (constructor variant x Cache/CacheOf x cleanup interval in {-5,0,2,3,5,10,20 ms, 1 min (nothing can be swept within the test: only construction and the drop are observed - the janitor must die with the cache at once, not at its next tick)} x 1-60 caches x 0-50 entries with 1 ms TTL x 0-50 "
+                 "Cases are generated configurations (constructor variant x Cache/CacheOf x cleanup interval in {-5,0,2,3,5,10,20 ms, and in a fifth of the janitor configurations 50/200/499/700 microseconds, 1 min (nothing can be swept within the test: only construction and the drop are observed - the janitor must die with the cache at once, not at its next tick)} x 1-60 caches x 0-50 entries with 1 ms TTL x 0-50 "
                  "never-expiring entries x callback yes/no x 1-6 waves of further expiring entries stored either the moment a janitor pass is seen at work (first removal observed: mid-sweep) or after a pause of 0.3-15 ms x 0/50000/150000 never-expiring ballast entries that stretch every pass to milliseconds x callback replaced after construction (other ledger / nil) x one slow callback) run in real time. Oracle: interval > 0: with no user call on the keys Count() drops to the never-expiring population within "
                  "max(200 intervals, 5 s) and the callback ledger holds every expired key exactly once and nothing else; interval > 0 also: in a third of the configurations the first evicted callback takes max(40 intervals, 300 ms) once (one sweep overruns), and after all waves three probe entries, each stored right after the previous one was seen removed, must be gone within max(25 intervals, 250 ms) - the pace may not depend on history; interval <= 0: Count() is "
                  "unchanged and no callback fires during a 60 ms window, DeleteExpired then cleans exactly; in half of the configurations the youngest half of the caches (and the auxiliary cache, the youngest of all) is dropped first and must be released while the older half stays in use; finally, after dropping all references and polling runtime.GC(), "
